@@ -111,7 +111,7 @@ GAPS = {
     'C23': ['all generator classes (value maps, designs, strata, reproducibility): bounded exhaustive tier only', 'drivers/sampling/* counterparts', 'Driver._set_design_var (assumed)', 'parallel DOE (MPI)'],
     'C05': ['Indexer class hierarchy (shaped_instance / as_array / indexed_src_shape / _check_bounds): bounded exhaustive tier against NumPy only', 'index chains through promotes (C04)', 'known finding F5a (recorded, not repaired)'],
     'C29': ['write->read round trip through re/pyparsing: bounded exhaustive tier only', 'transfer_2Darray, transfer_keyvar, anchors with occurrence != 1', 'string values containing delimiters'],
-    'C08': ['System/Group._compute_root_scale_factors (how a0, a1, factor, offset are derived from metadata)', 'System._scaled_context_all / _unscaled_context around every user callback', 'DefaultVector._allocate_scaling_data sharing between linear and nonlinear vectors', 'converged outputs and total derivatives of whole models under different ref/ref0/res_ref (solver numerics)'],
+    'C08': ['Group._compute_root_scale_factors: array-valued ref/ref0 selected through src_indices (idx_list_to_index_array), the output/residual branch, the loop over all inputs (one iteration with scalar ref/ref0 is proved)', 'System._scaled_context_all / _unscaled_context around every user callback', 'DefaultVector._allocate_scaling_data sharing between linear and nonlinear vectors', 'converged outputs and total derivatives of whole models under different ref/ref0/res_ref (solver numerics)'],
     'C12': ['truncation error for non-polynomial functions', 'step_calc=rel_element and directional options', 'compute_approx_col_iter generator (save / finally restore of FD mode)', 'colored approximation equals uncolored (C03)', 'ComplexStep: outputs/residuals after a point, nested complex-step fallback to FD', 'approximated totals'],
     'C25': ['KSfunction.compute/derivatives and KSComp.compute/compute_partials: bounded exhaustive tier only', 'exact gradients of jax ks_max/ks_min (jax AD)', 'exp overflow for huge rho*(g-m) is excluded by the shift but floats are treated as reals'],
     'C30': ['derivatives of the jax smooth helpers (jax AD)', 'second-order effects of a finite complex step', 'n-d arrays (boolean masks over more than one axis are outside the NumPy model) and the axis argument of cs_safe.norm: BOUNDED tier only'],
@@ -556,7 +556,7 @@ def _c04_extra(tier, seed, native_run):
 EXTRA_TIERS['C04'] = _c04_extra
 GAPS['C04'] = ['connection resolution and promotion name matching in conn_graph (which source an input gets): BOUNDED tier only',
                'the Indexer classes that produce the per-level positions (C05: bounded tier there; known finding F5a)', 'DefaultTransfer._setup_transfers / _setup_index_views layout beyond two connections; _fill is proved for two connections',
-               'Group._compute_root_scale_factors (how unit factor/offset and ref/ref0 entries are selected per input, incl. idx_list_to_index_array for array-valued ref/ref0 through index chains)',
+               'Group._compute_root_scale_factors for array-valued ref/ref0 through index chains (idx_list_to_index_array): bounded tier only (the scalar case is proved under C08)',
                'solver iteration order (that a transfer happens before every subsystem evaluation): bounded tier only (block Gauss-Seidel)', 'discrete transfers, distributed/MPI transfers']
 
 
